@@ -36,6 +36,7 @@ Pos1 == Some([lat |-> 1, lon |-> 2, bearing |-> None, odo |-> None, speed |-> So
 (* two trips, vehicles with id / label only / no descriptor, every way to associate them *)
 T1 == TDid(2)   T2 == TDid(1)      \* trip id tokens chosen so that t2 sorts before t1
 T1r == [TDid(2) EXCEPT !.route = Some(1)]          \* same id, different descriptor: a different trip
+Tnoid == [NoTD EXCEPT !.route = Some(1), !.dir = Some(1), !.st = Some([h |-> 11, m |-> 0, s |-> 30, ok |-> TRUE]), !.sd = Some([day |-> 1, ok |-> TRUE])]
 Tfreq == [NoTD EXCEPT !.id = Some(2), !.st = Some([h |-> 0, m |-> 0, s |-> 0, ok |-> TRUE])]  \* t1 at 00:00:00
 MergeShapes == <<
     TU(T1, None, <<Stu(Some(1), Some(1), Some(1), None)>>),                 \*  1 own entity of t1
@@ -51,12 +52,16 @@ MergeShapes == <<
     VP(None, None, Pos1, None),                                             \* 11 id-less vehicle alone
     TU(Tfreq, None, <<>>),                                                  \* 12 t1 with start time 00:00:00
     TU(T1r, Some([NoVD EXCEPT !.plate = Some(1)]), <<>>),                   \* 13 t1 on route r1 + plate-only vehicle
-    VP(Some([NoVD EXCEPT !.id = Some(0)]), Some(T2), Pos1, None)            \* 14 all-empty descriptor + trip t2
+    VP(Some([NoVD EXCEPT !.id = Some(0)]), Some(T2), Pos1, None),           \* 14 all-empty descriptor + trip t2
+    VP(Some([NoVD EXCEPT !.id = Some(0), !.label = Some(0)]), None, Pos1, Some(1)),  \* 15 another present-but-empty descriptor, no trip
+    VP(Some(VDid(3)), Some(Tnoid), Pos1, None),                             \* 16 v3 + a trip identified without trip_id (route, direction, start time and date)
+    TU(Tnoid, None, <<Stu(Some(1), Some(2), None, Some(2))>>),              \* 17 own entity of that trip
+    AL(3, <<[NoSel EXCEPT !.trip = Some(T1)], [NoSel EXCEPT !.trip = Some(T2)], [NoSel EXCEPT !.trip = Some(Tnoid)]>>)   \* 18 one alert naming three trips
 >>
 
 SeqOfSet(S) == SortSet(S, LAMBDA a, b : a < b)
-MergeMsgs == {[ts |-> Some(1), ents |-> [i \in DOMAIN SeqOfSet(S) |-> MergeShapes[SeqOfSet(S)[i]]]] :
-                S \in {X \in SUBSET (DOMAIN MergeShapes) : Cardinality(X) <= MaxEnts}}
+MergeMsgsOf(n) == {[ts |-> Some(1), ents |-> [i \in DOMAIN SeqOfSet(S) |-> MergeShapes[SeqOfSet(S)[i]]]] :
+                S \in {X \in SUBSET (DOMAIN MergeShapes) : Cardinality(X) <= n}}
 
 (* ---------------- pool "alerts": C12 ---------------- *)
 TDr(r)       == [NoTD EXCEPT !.route = Some(r)]
@@ -74,6 +79,7 @@ SelPool == <<
     [NoSel EXCEPT !.dir = Some(0)],                           \* a direction alone informs nothing
     NoSel,
     [NoSel EXCEPT !.trip = Some(TDid(1))],
+    [NoSel EXCEPT !.trip = Some(TDid(2))],
     [NoSel EXCEPT !.trip = Some(TDr(1))],
     [NoSel EXCEPT !.trip = Some(TDrd(1, 0))],
     [NoSel EXCEPT !.trip = Some(TDrd(1, 1))],
@@ -87,7 +93,7 @@ SelPool == <<
     [NoSel EXCEPT !.route = Some(1), !.trip = Some(TDid(2)), !.agency = Some(1), !.stop = Some(1), !.rtype = Some(3), !.dir = Some(1)]
 >>
 SelSeqs(n) == UNION {[1..k -> DOMAIN SelPool] : k \in 0..n}
-AlertMsgs == {[ts |-> None, ents |-> <<AL(1, [i \in DOMAIN q |-> SelPool[q[i]]])>>] : q \in SelSeqs(MaxEnts)}
+AlertMsgsOf(n) == {[ts |-> None, ents |-> <<AL(1, [i \in DOMAIN q |-> SelPool[q[i]]])>>] : q \in SelSeqs(n)}
 
 
 (* ---------------- pool "fields": C02, one field at a time ---------------- *)
@@ -193,9 +199,15 @@ RandEnt(i) ==
                          header |-> RandTxt, desc |-> RandTxt, url |-> RandTxt]
 RandMsg == TLCEval([ts |-> ROpt(7), ents |-> LET n == R(0..5) IN TLCEval([i \in 1..n |-> TLCEval(RandEnt(i))])])
 
-Msgs == CASE Pool = "merge" -> MergeMsgs
+(* two alerts in one message: bookkeeping must not leak from one alert into the next *)
+RouteOnlySels == {i \in DOMAIN SelPool : RouteOnly(SelPool[i])}
+Alert2Msgs == {[ts |-> None, ents |-> <<AL(1, [i \in DOMAIN q1 |-> SelPool[q1[i]]]), AL(2, [i \in DOMAIN q2 |-> SelPool[q2[i]]])>>]
+                 : q1 \in UNION {[1..k -> RouteOnlySels] : k \in 1..2}, q2 \in UNION {[1..k -> DOMAIN SelPool] : k \in 0..1}}
+
+Msgs == CASE Pool = "merge" -> MergeMsgsOf(MaxEnts)
+          [] Pool = "alerts2" -> Alert2Msgs
           [] Pool = "fields" -> FieldMsgs
-          [] Pool = "alerts" -> AlertMsgs
+          [] Pool = "alerts" -> AlertMsgsOf(MaxEnts)
 
 (* ---------------- the machine ---------------- *)
 Init == /\ msg \in Msgs
@@ -207,7 +219,7 @@ Merge(i) == /\ pc = "merge" /\ i \in pending
             /\ UNCHANGED <<msg, pc>>
 Finish == /\ pc = "merge" /\ pending = {} /\ pc' = "done" /\ UNCHANGED <<msg, pending, order, ms>>
 (* every order for the merge and alert pools; feed order only for the (large) field-variation messages *)
-Next == (\E i \in pending : (Pool \in {"merge", "alerts"} \/ i = SetMin(pending)) /\ Merge(i)) \/ Finish
+Next == (\E i \in pending : (Pool \in {"merge", "alerts", "alerts2"} \/ i = SetMin(pending)) /\ Merge(i)) \/ Finish
 Spec == Init /\ [][Next]_vars
 
 (* tlc -simulate: a fresh random message per behaviour, merged in identity order *)
